@@ -5,8 +5,8 @@
      after each op: min_ss,max_ss,is_probing,<returned size or ->      (PANIC ends the line)
    mtu_search <is_ipv4> <link_mtu> <P>             scripted path delivering exactly sizes <= P
      output: <probe outcomes> <mss> <max_ss> <is_probing>
-   mtu_d3 <is_ipv4> <link_mtu> <n>                 new; on_payload_delivered(n) (a payload size
-     reported by the peer): output: <ceiling> <mss> <max_ss> *)
+   mtu_d3 <is_ipv4> <link_mtu> <n>                 regression of D3: new; on_payload_delivered(n) (a
+     payload size reported by the peer): output: <max_ss before> <mss> <max_ss> *)
 open Model
 open Zutil
 
@@ -65,10 +65,8 @@ let run_search = function
 
 let run_d3 = function
   | [v4; mtu; n] ->
-    let c = cfg_of v4 mtu "3" in
-    let s0 = ss_new c in
-    let s1 = on_payload_delivered s0 (usize_of n) in
-    Printf.sprintf "%s %s %s" (string_of_z s0.max_ss) (string_of_z (mss s1)) (string_of_z s1.max_ss)
+    let ((ceil, m), mx) = mtu_d3 (cfg_of v4 mtu "3") (usize_of n) in
+    Printf.sprintf "%s %s %s" (string_of_z ceil) (string_of_z m) (string_of_z mx)
   | _ -> raise Bad
 
 (* mtu_pred <case tokens incl. kind> | <observations> *)
@@ -84,6 +82,13 @@ let run_pred toks =
           Some (((z_of_string cnt, z_of_string m), z_of_string mx), (pr = "1"))
         | _ -> None) in
     if c14_search_ok (cfg_of v4 mtu "0") (usize_of p) ob then "OK" else "FAIL c14_search_ok"
+  | ["mtu_d3"; v4; mtu; n] ->
+    ignore (usize_of n);
+    (match obs with
+     | [ceil; m; mx] ->
+       if c14_d3_ok (cfg_of v4 mtu "3") ((z_of_string ceil, z_of_string m), z_of_string mx)
+       then "OK" else "FAIL c14_d3_ok"
+     | _ -> "FAIL c14_d3_ok")
   | _ -> failwith "mtu_pred: bad case"
 
 let guard f r = try f r with Bad | Failure _ | Invalid_argument _ -> "BADCASE"
